@@ -4,6 +4,7 @@ package chk
 // decode a symbolic payload, serialise the decoded value, compare bit by bit; Size() equals the serialised length.
 
 import (
+	"os"
 	"fmt"
 	"go/ast"
 	"go/constant"
@@ -71,6 +72,11 @@ func analyseCodec(c *Ctx, sp codecSpec) *codecVerdict {
 			sd.F["payload"] = &SliceV{Len: in.atom("payloadlen", 62, true), Ident: in.atom("payload", 64, true), ElemT: types.Typ[types.Byte], bodyOf: st}
 			sd.F["payloadType"] = in.atom("payloadType", 32, true)
 			args = []Val{sd}
+		case "sr":
+			args = []Val{st}
+		case "sge":
+			nm := &SliceV{Str: true, Len: cI(4), Ident: in.atom("name", 32, true), Sym: true, Path: "name"}
+			args = []Val{nm, in.atom("length", 32, true), st}
 		}
 		if sp.extra != nil {
 			args = append(args, sp.extra(in)...)
@@ -127,6 +133,14 @@ func analyseCodec(c *Ctx, sp codecSpec) *codecVerdict {
 			switch sp.encKind {
 			case "writer":
 				w := in.newStream(true, "w")
+				ev := in.callMethod(fr, obj, sp.encode, []Val{w}, nil)
+				if e, ok := ev.(ErrV); ok && e.NonNil || in.panicked {
+					out.problems = append(out.problems, "DE|"+sp.encode+" fails on a value the decoder produced")
+					return
+				}
+				wt = w.T
+			case "sw":
+				w := in.newStream(true, "sw")
 				ev := in.callMethod(fr, obj, sp.encode, []Val{w}, nil)
 				if e, ok := ev.(ErrV); ok && e.NonNil || in.panicked {
 					out.problems = append(out.problems, "DE|"+sp.encode+" fails on a value the decoder produced")
@@ -239,14 +253,17 @@ func analyseCodec(c *Ctx, sp codecSpec) *codecVerdict {
 	return cv
 }
 
-func reportCodec(r *Report, c *Ctx, cv *codecVerdict) {
+func reportCodec(r *Report, c *Ctx, cv *codecVerdict) { reportCodecPart(r, c, cv, "both") }
+
+// reportCodecPart reports the layout part (W-BITS), the size part (W-BITS-size) or both.
+func reportCodecPart(r *Report, c *Ctx, cv *codecVerdict, which string) {
 	name := cv.spec.pkg + "." + cv.spec.name
 	for _, part := range []struct {
 		rule  string
 		probs map[string]string
 		what  string
 		on    bool
-	}{{"W-BITS", cv.de, "decoder and serialiser disagree on the bit layout", true}, {"W-BITS-size", cv.se, "Size() and the serialiser disagree", cv.spec.size != ""}} {
+	}{{"W-BITS", cv.de, "decoder and serialiser disagree on the bit layout", which != "size"}, {"W-BITS-size", cv.se, "Size() and the serialiser disagree", cv.spec.size != "" && which != "layout"}} {
 		if !part.on {
 			continue
 		}
@@ -301,7 +318,12 @@ func init() { Registry["WCODEC"] = debugCodec }
 
 func debugCodec(c *Ctx, r *Report) {
 	debugDump = true
-	for _, sp := range append(seiCodecs, aacCodecs...) {
+	specs := append(append([]codecSpec{}, seiCodecs...), aacCodecs...)
+	if os.Getenv("WCODEC") == "mp4" {
+		specs = mp4Codecs
+		debugDump = os.Getenv("WDUMP") != ""
+	}
+	for _, sp := range specs {
 		cv := analyseCodec(c, sp)
 		fmt.Printf("== %s cfgs=%d rej=%d err=%q irr=%v\n de=%v\n se=%v\n", sp.name, cv.nCfg, cv.nRej, cv.err, cv.irr, cv.de, cv.se)
 	}
@@ -312,6 +334,18 @@ var seiCodecs = []codecSpec{
 	{name: "TimeCodeSEI", pkg: "sei", decode: "DecodeTimeCodeSEI", argKind: "seidata", encode: "Payload", encKind: "bytes", size: "Size", trailing: true},
 	{name: "MasteringDisplayColourVolumeSEI", pkg: "sei", decode: "DecodeMasteringDisplayColourVolumeSEI", argKind: "seidata", encode: "Payload", encKind: "bytes", size: "Size"},
 	{name: "ContentLightLevelInformationSEI", pkg: "sei", decode: "DecodeContentLightLevelInformationSEI", argKind: "seidata", encode: "Payload", encKind: "bytes", size: "Size"},
+}
+
+// mp4Codecs: the inner codecs of boxes that are tabled as irregular at box level (sgpd dispatches on the grouping
+// type, uuid on the extended type): their entries / sub-payloads are regular and are compared like boxes.
+var mp4Codecs = []codecSpec{
+	{name: "SeigSampleGroupEntry", pkg: "mp4", decode: "DecodeSeigSampleGroupEntry", argKind: "sge", encode: "Encode", encKind: "sw", size: "Size"},
+	{name: "RollSampleGroupEntry", pkg: "mp4", decode: "DecodeRollSampleGroupEntry", argKind: "sge", encode: "Encode", encKind: "sw", size: "Size"},
+	{name: "RapSampleGroupEntry", pkg: "mp4", decode: "DecodeRapSampleGroupEntry", argKind: "sge", encode: "Encode", encKind: "sw", size: "Size"},
+	{name: "AlstSampleGroupEntry", pkg: "mp4", decode: "DecodeAlstSampleGroupEntry", argKind: "sge", encode: "Encode", encKind: "sw", size: "Size"},
+	{name: "UnknownSampleGroupEntry", pkg: "mp4", decode: "DecodeUnknownSampleGroupEntry", argKind: "sge", encode: "Encode", encKind: "sw", size: "Size"},
+	{name: "TfxdData", pkg: "mp4", decode: "decodeTfxd", argKind: "sr", encode: "encode", encKind: "sw", size: "size"},
+	{name: "TfrfData", pkg: "mp4", decode: "decodeTfrf", argKind: "sr", encode: "encode", encKind: "sw", size: "size"},
 }
 
 var aacCodecs = []codecSpec{
